@@ -162,16 +162,16 @@ def main(ctx):
     # T ---------------------------------------------------------------------------------------
     trace = ctx.path("trace.ndjson")
     if thorough:
-        opts = dict(closest=180, index=90, assign=60, kmer=600, maxrefs=500, idxrefs=80, idxmaxlen=90)
+        opts = dict(closest=200, index=90, assign=60, kmer=600, maxrefs=500, idxrefs=80, idxmaxlen=90)
     else:
-        opts = dict(closest=10, index=8, assign=6, kmer=60, maxrefs=300, idxrefs=36, idxmaxlen=50)
+        opts = dict(closest=12, index=8, assign=6, kmer=60, maxrefs=300, idxrefs=36, idxmaxlen=50)
     args = ["record", "C15", "--out", trace]
     for k, v in opts.items():
         args += ["--opt", "%s=%d" % (k, v)]
     ctx.harness(args, timeout=900)
     events, rejects = validate_trace(ctx, trace, 3000, heap="6g")
     fam = collections.Counter("%s/%s" % (e["k"], e["sc"]) for e in events)
-    for need in ("closest/family", "closest/family2", "closest/near", "closest/self", "closest/iupac", "closest/unrelated",
+    for need in ("closest/family", "closest/family2", "closest/near", "closest/self", "closest/iupac", "closest/unrelated", "closest/one-apart",
                  "index/random", "index/idxfamily", "index/idxfamily2", "assign/near", "assign/tie", "assign/self", "assign/far",
                  "kmer/related", "kmer/unrelated", "kmer/repeats", "kmer/iupac"):
         guard("trace family " + need, fam.get(need, 0))
